@@ -12,7 +12,7 @@ use std::collections::BTreeSet;
 
 use engine::{machinery_error, parse_args, par_shards, permutations, replay_and_exit, Report, Tally, Tier};
 use mc_stateres::{
-    history::{Action, History, TEMPLATES},
+    history::{Action, History},
     spec_res::{resolve_real, SMap},
 };
 use ruma_state_res::verif_order::{set_script, take_log, ChoicePoint};
@@ -206,8 +206,7 @@ impl Explorer<'_> {
 
 fn replay(case: &Value) -> Vec<(String, String)> {
     let hj = &case["history"];
-    let trail: Vec<Action> = hj["trail"].as_array().unwrap().iter().map(Action::from_json).collect();
-    let Some(h) = History::from_trail(hj["v"].as_u64().unwrap() as u8, hj["base_with_power_levels"].as_bool().unwrap(), &trail) else {
+    let Some(h) = History::from_json_trail(hj) else {
         return vec![("replay/history-not-reproducible".into(), "an action of the trail is no longer accepted".into())];
     };
     let nodes: Vec<usize> = case["merge"].as_array().unwrap().iter().map(|x| x.as_u64().unwrap() as usize).collect();
@@ -224,7 +223,7 @@ fn main() {
     // templates that create power events (power-level changes, ban, kick, join-rule changes):
     // the ones whose relative order the tie-breaking decides
     let power_templates: Vec<usize> = vec![0, 1, 2, 3, 6, 7, 8];
-    let all_templates: Vec<usize> = (0..TEMPLATES.len()).collect();
+    let all_templates: Vec<usize> = (0..14).collect();
     let passes: Vec<(usize, usize, usize, Vec<usize>)> = match args.tier {
         Tier::Quick => vec![(2, 3, 1, all_templates.clone()), (1, 3, 2, all_templates.clone()), (3, 2, 1, power_templates.clone())],
         Tier::Thorough => vec![(3, 3, 1, all_templates.clone()), (2, 4, 2, all_templates.clone()), (4, 2, 1, power_templates.clone())],
